@@ -76,6 +76,9 @@ func (m *Engine) RunPending() {
 
 	// Resolve and run the command
 	command := m.resolve(pending)
+	if command == nil {
+		return
+	}
 
 	command()
 
